@@ -405,6 +405,76 @@ func c13(r *Report) {
 	})
 
 	r.Guard("C13.R3", "the MultiError's error list is accessed only under its mutex", func() {
+		// the configurable root excludes traffic while it resets: traffic evaluates the
+		// tree under the read lock of martianhttp.Modifier, a reset rewrites verifier
+		// state, so the reset of the tree runs under the write lock
+		if mh := w.Named("martianhttp", "Modifier"); mh != nil {
+			for _, mn := range []string{"ResetRequestVerifications", "ResetResponseVerifications"} {
+				fn := w.method(mh, mn)
+				if fn == nil || fn.Blocks == nil {
+					r.Undecided("(*M/martianhttp.Modifier)."+mn, "UNRESOLVED")
+					continue
+				}
+				r.Touch(fn)
+				states := lockStates(fn, nil)
+				n := 0
+				for _, c := range calls(fn) {
+					cc := c.Common()
+					if !cc.IsInvoke() || cc.Method.Name() != mn {
+						continue
+					}
+					n++
+					heldW := false
+					for k := range states[c] {
+						if strings.HasPrefix(k, "W:") {
+							heldW = true
+						}
+					}
+					r.Decide("lockset", fmt.Sprintf("(*M/martianhttp.Modifier).%s resets the tree under its write lock", mn), heldW, "the child's reset is invoked with the write lock held: no message is being evaluated meanwhile", fmt.Sprintf("the tree is reset with lockset %v (no write lock): a message evaluated at the same moment races with the reset, and a failure it records can be lost", states[c]), c.Pos())
+				}
+				if n == 0 {
+					r.Fail("lockset", fmt.Sprintf("(*M/martianhttp.Modifier).%s resets the tree under its write lock", mn), "the method no longer forwards the reset to the configured tree", nil, fn.Pos())
+				}
+			}
+		}
+		// the reset endpoint resets unconditionally: nothing but the request method and
+		// the presence of the verifier decides whether a side is reset
+		if rh := w.Fn("verify", "ResetHandler.ServeHTTP"); rh != nil {
+			r.Touch(rh)
+			for _, c := range calls(rh) {
+				cc := c.Common()
+				if !cc.IsInvoke() || (cc.Method.Name() != "ResetRequestVerifications" && cc.Method.Name() != "ResetResponseVerifications") {
+					continue
+				}
+				bad := ""
+				for _, ce := range ctrlEdges(c.Block()) {
+					b, isB := ce.If.Cond.(*ssa.BinOp)
+					if !isB {
+						bad = "a condition at " + w.Pos(ce.If.Cond.Pos())
+						continue
+					}
+					okCond := false
+					for _, side := range []ssa.Value{b.X, b.Y} {
+						if pathOf(side) != "" && pathOf(side) == pathOf(cc.Value) {
+							okCond = true // h.reqv != nil
+						}
+						if anyIn(w.backSlice(side, flowOpt{}), func(x ssa.Value) bool {
+							fa, y := x.(*ssa.FieldAddr)
+							return y && fieldObj(fa).Name() == "Method"
+						}) {
+							okCond = true // req.Method
+						}
+					}
+					if !okCond {
+						bad = "the comparison at " + w.Pos(b.Pos())
+					}
+				}
+				r.Decide("path", "(*M/verify.ResetHandler).ServeHTTP: "+cc.Method.Name()+" depends only on the request method and the verifier being present", bad == "", "no other condition guards the reset", "the reset is skipped depending on "+bad+" (for instance on what the verifiers currently report): a verifier that reports nothing right now keeps its state", c.Pos())
+			}
+		} else {
+			r.Undecided("(*M/verify.ResetHandler).ServeHTTP", "UNRESOLVED")
+		}
+
 		me := w.Named("", "MultiError")
 		fo := structField(me, "errs")
 		if fo == nil {
